@@ -341,6 +341,9 @@ func main() {
 	declMismatch := []string{}
 	for ci := 0; ci < n; ci++ {
 		c := g.Config()
+		if ci%7 == 3 && ForceTwoStamps(c) {
+			stats["two-stamps-on-one-line-configs"]++
+		}
 		nums := map[string]*NumTok{}
 		gitems := g.Lines(c, 4+rng.Intn(22), nums)
 		text := c.Text(nil, "")
